@@ -15,7 +15,7 @@ import lib
 from lib import cZ, clist
 
 PROP = 'C22'
-IMPORTS = 'From PV Require Import Codec.Micheline Michelson.Repl.'
+IMPORTS = 'From PV Require Import Base.Bytes Codec.Micheline Michelson.Repl.'
 
 # ---------------------------------------------------------------------------------------------
 # cell AST: types, literals (Micheline JSON), instructions -> Michelson text and Coq literals
@@ -47,6 +47,29 @@ def ty_coq(t):
     if len(t) == 1:
         return T0[t[0]]
     return '(' + (T1 if len(t) == 2 else T2)[t[0]] + ' ' + ' '.join(ty_coq(x) for x in t[1:]) + ')'
+
+
+def xlist(ty, items):
+    """list literal with explicit constructors and type (coqc elaborates it about three times faster than [a; b])"""
+    out = f'(@nil {ty})'
+    for x in reversed(list(items)):
+        out = f'(@cons {ty} {x} {out})'
+    return out
+
+
+def xnode(m):
+    """lib.cnode with explicit list constructors"""
+    if isinstance(m, list):
+        return '(NSeq ' + xlist('node', (xnode(x) for x in m)) + ')'
+    if 'int' in m:
+        return f'(NInt {cZ(int(m["int"]))})'
+    if 'string' in m:
+        return f'(NStr {lib.chex(m["string"].encode("utf-8"))})'
+    if 'bytes' in m:
+        return f'(NByt {lib.chex(bytes.fromhex(m["bytes"]))})'
+    args = xlist('node', (xnode(x) for x in m.get('args', []) or []))
+    annots = xlist('bytes', (lib.chex(a.encode('utf-8')) for a in m.get('annots', []) or []))
+    return f'(NPrim {lib.cbyte(lib.prim_tag(m["prim"]))} {args} {annots})'
 
 
 def ty_of_expr(e):
@@ -143,21 +166,21 @@ def m_text(i):
 def m_coq(i):
     op = i[0]
     if op == 'PUSH':
-        return f'(MPush {ty_coq(i[1])} {lib.cnode(i[2])})'
+        return f'(MPush {ty_coq(i[1])} {xnode(i[2])})'
     if op in MT:
         return f'({MT[op]} {ty_coq(i[1])})'
     if op == 'EMPTY_BIG_MAP':
         return f'(MEmptyBigMap {ty_coq(i[1])} {ty_coq(i[2])})'
     if op == 'DIP':
-        return f'(MDip {clist(m_coq(x) for x in i[1])})'
+        return f'(MDip {xlist('minstr', (m_coq(x) for x in i[1]))})'
     if op in ('IF_NONE', 'IF'):
-        return f'({"MIfNone" if op == "IF_NONE" else "MIf"} {clist(m_coq(x) for x in i[1])} {clist(m_coq(x) for x in i[2])})'
+        return f'({"MIfNone" if op == "IF_NONE" else "MIf"} {xlist('minstr', (m_coq(x) for x in i[1]))} {xlist('minstr', (m_coq(x) for x in i[2]))})'
     if op == 'DIPN':
-        return f'(MDipN {lib.cnat(i[1])} {clist(m_coq(x) for x in i[2])})'
+        return f'(MDipN {lib.cnat(i[1])} {xlist('minstr', (m_coq(x) for x in i[2]))})'
     if op == 'LOOP':
-        return f'(MLoop {clist(m_coq(x) for x in i[1])})'
+        return f'(MLoop {xlist('minstr', (m_coq(x) for x in i[1]))})'
     if op == 'LAMBDA':
-        return f'(MLambda {ty_coq(i[1])} {ty_coq(i[2])} {clist(m_coq(x) for x in i[3])})'
+        return f'(MLambda {ty_coq(i[1])} {ty_coq(i[2])} {xlist('minstr', (m_coq(x) for x in i[3]))})'
     if op == 'EXEC':
         return 'MExec'
     if op == 'PATCH':
@@ -190,11 +213,11 @@ def i_coq(i):
     if op == 'storage':
         return f'(IStorage {ty_coq(i[1])})'
     if op == 'code':
-        return f'(ICode {clist(m_coq(x) for x in i[1])})'
+        return f'(ICode {xlist('minstr', (m_coq(x) for x in i[1]))})'
     if op == 'BEGIN':
-        return f'(IBegin {lib.cnode(i[1])} {lib.cnode(i[2])})'
+        return f'(IBegin {xnode(i[1])} {xnode(i[2])})'
     if op == 'RUN':
-        return f'(IRun {lib.cnode(i[1])} {lib.cnode(i[2])})'
+        return f'(IRun {xnode(i[1])} {xnode(i[2])})'
     return I0[op]
 
 
@@ -216,7 +239,7 @@ def cell_text(c):
 def cell_coq(c):
     if 'crash' in c:
         return 'CCrash'
-    return 'CBad' if 'bad' in c else f'(CCode {clist(i_coq(i) for i in c["code"])})'
+    return 'CBad' if 'bad' in c else f'(CCode {xlist("instr", (i_coq(i) for i in c["code"]))})'
 
 
 # ---------------------------------------------------------------------------------------------
@@ -1003,7 +1026,7 @@ def code_expr(body):
 
 
 def bodies_coq(cells):
-    return clist(clist(m_coq(x) for x in b) for b in all_bodies(cells)[1])
+    return xlist('(list minstr)', (xlist('minstr', (m_coq(x) for x in b)) for b in all_bodies(cells)[1]))
 
 
 def ser(o) -> bytes:
@@ -1089,7 +1112,7 @@ HAND = [
 def case_for(cells):
     bodies = bodies_of(cells)
     recs, obs = run_session(cells, bodies)
-    inp = f'({bodies_coq(cells)}, {clist(cell_coq(c) for c in cells)})'
+    inp = f'({bodies_coq(cells)}, {xlist("cell", (cell_coq(c) for c in cells))})'
     return recs, obs, (inp, to_node(obs)), bodies
 
 
